@@ -27,6 +27,10 @@ pub enum Plan {
     /// n point records listed by the index in an order other than the file order (kind 0: n = 3, order [2,0,1];
     /// kind 1: n = 40, reversed), the .shp cut to `len` bytes, the iteration going on after errors
     PermCut { kind: u8, len: usize },
+    /// `before` items are iterated, then seek(i) (access 0) or read_nth_shape(i) (access 1) is called, then the
+    /// iteration runs to its end; operation k of the .shp fails once, a failing seek leaving the source where it was
+    /// (land 0), at its target (1) or at offset 0 (2)
+    Probe { before: usize, access: u8, i: usize, k: u64, land: u8, with_shx: bool },
 }
 
 #[derive(Clone, Debug)]
@@ -53,6 +57,7 @@ impl Case {
             Plan::Pair { k1, k2, with_shx } => json!({"pair_on_shp": [k1, k2], "with_shx": with_shx}),
             Plan::DiskCut { shx, len } => json!({"disk_cut": (if *shx { "shx" } else { "shp" }), "len": len}),
             Plan::PermCut { kind, len } => json!({"perm_cut": kind, "len": len}),
+            Plan::Probe { before, access, i, k, land, with_shx } => json!({"probe_after": before, "access": (["seek", "read_nth_shape"][*access as usize]), "i": i, "operation": k, "failing_seek_lands": (["where it was", "at its target", "at offset 0"][*land as usize]), "with_shx": with_shx}),
         };
         json!({"ty": self.ty.name(), "seq": self.seq, "refcodec": self.refcodec, "gapped": self.gapped, "big": self.big, "plan": plan})
     }
@@ -66,6 +71,15 @@ impl Case {
             }
         } else if let Some(a) = p.get("pair_on_shp").and_then(|x| x.as_array()) {
             Plan::Pair { k1: a.first()?.as_u64()?, k2: a.get(1)?.as_u64()?, with_shx: p.get("with_shx")?.as_bool()? }
+        } else if let Some(b) = p.get("probe_after").and_then(|x| x.as_u64()) {
+            Plan::Probe {
+                before: b as usize,
+                access: if p.get("access")?.as_str()? == "seek" { 0 } else { 1 },
+                i: p.get("i")?.as_u64()? as usize,
+                k: p.get("operation")?.as_u64()?,
+                land: ["where it was", "at its target", "at offset 0"].iter().position(|s| Some(*s) == p.get("failing_seek_lands").and_then(|x| x.as_str()))? as u8,
+                with_shx: p.get("with_shx")?.as_bool()?,
+            }
         } else if let Some(k) = p.get("perm_cut").and_then(|x| x.as_u64()) {
             Plan::PermCut { kind: k as u8, len: p.get("len")?.as_u64()? as usize }
         } else if let Some(c) = p.get("disk_cut") {
@@ -290,6 +304,80 @@ pub fn traverse_on_n(fx: &Fixture, shp: Dev, shx: Option<Dev>, max_next: usize) 
         for i in 0..n {
             set(100 + i as u32);
             out.push((100 + i as u32, r.read_nth_shape(i).map(|x| x.map_err(|e| err_kind(&e)).and_then(|s| which(&fx.recs, &s)))));
+        }
+    }
+    out
+}
+
+/// `before` items, one access, then the iteration to its end.  Call ids: 0 open, 10+j the items before, 50 the
+/// access, 60+j the items after.
+pub fn probe_on(fx: &Fixture, shp: Dev, shx: Option<Dev>, before: usize, access: u8, i: usize) -> Vec<(u32, Option<Result<usize, String>>)> {
+    let mut out = vec![];
+    let set = |c: u32| {
+        shp.set_call(c);
+        if let Some(x) = &shx {
+            x.set_call(c);
+        }
+    };
+    set(0);
+    let opened = match &shx {
+        Some(x) => ShapeReader::with_shx(shp.clone(), x.clone()),
+        None => ShapeReader::new(shp.clone()),
+    };
+    let mut r = match opened {
+        Ok(r) => r,
+        Err(e) => {
+            out.push((0, Some(Err(err_kind(&e)))));
+            return out;
+        }
+    };
+    let item = |x: Result<Shape, shapefile::Error>| x.map_err(|e| err_kind(&e)).and_then(|s| which(&fx.recs, &s));
+    {
+        let mut it = r.iter_shapes();
+        for j in 0..before as u32 {
+            set(10 + j);
+            out.push((10 + j, it.next().map(item)));
+        }
+    }
+    set(50);
+    if access == 0 {
+        out.push((50, Some(r.seek(i).map(|_| usize::MAX).map_err(|e| err_kind(&e)))));
+    } else {
+        out.push((50, r.read_nth_shape(i).map(item)));
+    }
+    let mut it = r.iter_shapes();
+    for j in 0..(fx.recs.len() + 3) as u32 {
+        set(60 + j);
+        let a = it.next().map(item);
+        let end = a.is_none();
+        out.push((60 + j, a));
+        if end {
+            break;
+        }
+    }
+    out
+}
+
+/// The call during which the operation failed returns an error; no shape is invented; the items that follow the
+/// access are records of the file in file order; and, the source being healthy again and the file valid, nothing
+/// but an I/O error may be reported (any other error means bytes were decoded out of place).
+pub fn judge_probe(ans: &[(u32, Option<Result<usize, String>>)], fired: &[u32]) -> Vec<(String, String)> {
+    let mut out = vec![];
+    for (c, a) in ans {
+        match a {
+            Some(Err(e)) if e.contains("not in the file") => out.push(("after-failed-access:invented-shape".to_string(), format!("call {}: {}; answers {:?}", c, e, ans))),
+            Some(Err(e)) if *c >= 60 && !e.starts_with("Io") && !e.starts_with("MissingIndex") => out.push(("after-failed-access:decoded-out-of-place".to_string(), format!("call {} reports {} on a valid file whose source is healthy again; answers {:?}", c, e, ans))),
+            _ => {}
+        }
+    }
+    let after: Vec<usize> = ans.iter().filter(|(c, _)| *c >= 60).filter_map(|(_, a)| if let Some(Ok(k)) = a { Some(*k) } else { None }).collect();
+    if after.windows(2).any(|w| w[1] != w[0] + 1) {
+        out.push(("after-failed-access:records-out-of-order".to_string(), format!("answers {:?}", ans)));
+    }
+    for c in fired {
+        match ans.iter().find(|(ac, _)| ac == c) {
+            Some((_, Some(Err(_)))) => {}
+            other => out.push(("after-failed-access:failure-not-reported".to_string(), format!("an operation failed during call {}, which answered {:?}", c, other))),
         }
     }
     out
@@ -557,7 +645,7 @@ pub fn judge(case: &Case, fx: &Fixture, base: &[Ans], base_logs: (&[Op], &[Op]),
                 }
             }
         }
-        Plan::Pair { .. } | Plan::DiskCut { .. } | Plan::PermCut { .. } => {}
+        Plan::Pair { .. } | Plan::DiskCut { .. } | Plan::PermCut { .. } | Plan::Probe { .. } => {}
         Plan::ShortRead { .. } => {
             if ans != base {
                 out.push(("short-read-differs".into(), format!("traversal differs from the unrestricted source: {:?} vs {:?}", ans, base)));
@@ -681,6 +769,52 @@ fn run_fixture_ext(ty: Ty, seq: &[usize], refcodec: bool, gapped: bool, big: usi
                 }
             }
         }
+        // one failing operation around an access in the middle of an iteration, the iteration going on afterwards
+        let n = seq.len();
+        for with_shx in [true, false] {
+            for before in 0..=n {
+                for (access, i) in (0..=n).map(|i| (0u8, i)).chain((0..n).map(|i| (1u8, i))) {
+                    for land in 0..3u8 {
+                        let mut k = 0u64;
+                        loop {
+                            let case = Case { ty, seq: seq.to_vec(), refcodec, gapped, big, plan: Plan::Probe { before, access, i, k, land, with_shx } };
+                            let (a, b) = (Dev::with_data(fx.shp.clone()), Dev::quiet(fx.shx.clone()));
+                            a.fail_at(k, FaultMode::OneShot);
+                            match land {
+                                1 => a.set_seek_moves_on_fault(true),
+                                2 => a.set_seek_lands_on_fault(Some(0)),
+                                _ => {}
+                            }
+                            let run = catch(|| probe_on(&fx, a.clone(), if with_shx { Some(b) } else { None }, before, access, i));
+                            if a.faults_fired() < 1 {
+                                break;
+                            }
+                            k += 1;
+                            let mut h = Fnv::new();
+                            h.str(&case.to_json().to_string());
+                            match run {
+                                Ok(ans) => {
+                                    ctx.lib_calls += ans.len() as u64;
+                                    let mut oh = Fnv::new();
+                                    oh.str(&format!("{:?}", ans));
+                                    ctx.case_done(h.finish(), true, oh.finish());
+                                    let mut fired: Vec<u32> = a.log().iter().filter_map(|o| if let Op::Failed { call, .. } = o { Some(*call) } else { None }).collect();
+                                    fired.dedup();
+                                    for (sig, d) in judge_probe(&ans, &fired) {
+                                        ctx.violation(format!("{}:{}", ty.name(), sig), || case.to_json(), || d);
+                                    }
+                                }
+                                Err(p) => {
+                                    ctx.case_done(h.finish(), true, 1);
+                                    ctx.violation(format!("{}:{}", ty.name(), p.sig()), || case.to_json(), || format!("{}:{} {}", p.file, p.line, p.msg));
+                                }
+                            }
+                            tick();
+                        }
+                    }
+                }
+            }
+        }
         let cuts = (0..=fx.shx.len()).map(|l| (true, l)).chain((0..=fx.shp.len()).map(|l| (false, l)));
         for (cut_shx, len) in cuts {
             let case = Case { ty, seq: seq.to_vec(), refcodec, gapped, big, plan: Plan::DiskCut { shx: cut_shx, len } };
@@ -724,7 +858,7 @@ fn run_fixture_ext(ty: Ty, seq: &[usize], refcodec: bool, gapped: bool, big: usi
                 (if *dev == 0 { &a } else { &b }).fail_at(*k, if *persistent { FaultMode::Persistent } else { FaultMode::OneShot });
                 (a, b)
             }
-            Plan::Pair { .. } | Plan::DiskCut { .. } | Plan::PermCut { .. } => unreachable!(),
+            Plan::Pair { .. } | Plan::DiskCut { .. } | Plan::PermCut { .. } | Plan::Probe { .. } => unreachable!(),
             Plan::ShortRead { kind, arg } => {
                 let (a, b) = (Dev::quiet(fx.shp.clone()), Dev::quiet(fx.shx.clone()));
                 let c = match kind {
@@ -888,7 +1022,7 @@ pub fn check(tier: Tier) -> i32 {
             tier,
             level: "fault_enumeration",
             engine: "valid files (library-written and RefCodec-written) read by the real ShapeReader from truncated, fault-injecting and short-reading devices",
-            rule: "per file: every truncation length 0..=len of the .shp (read with the intact .shx and without index), every truncation length of the .shx, every operation index k over the reads and seeks of a full traversal (open, iterate, read_nth_shape(i) and seek(i) for all i) x {one-shot, persistent} on each source, uniform short reads c in {1,2,3,4,5,7,8,9,15,16,17} and, for every read call j, 'call j returns 1 byte' / 'len-1 bytes'; files = types x 3 sequences (1-3 records of different sizes) x {library writer, RefCodec}, plus RefCodec files with fillers in front of every record (read through the index), plus, for the library-written files of 1 and 2 records: every pair of operations of the .shp failing once each, with and without index, the iteration going on after an error (every call during which an operation failed returns an error, nothing invented), and the two files on disk with every truncation of the .shx and of the .shp opened by ShapeReader::from_path (same answers as with_shx over the same bytes in memory); plus files whose index lists the records in another order than the file (3 records in order [2,0,1] at every truncation length; 40 records reversed, cut around every record end), the iteration going on after errors: every entry whose record is wholly retained comes back as that record, every other as an I/O error, by iteration and by random access; plus files whose second record has a part of 1500 / 70001 points (cuts: last 48 bytes, around every power of two and every MiB, every 4099th byte; short reads); every case is non-trivial",
+            rule: "per file: every truncation length 0..=len of the .shp (read with the intact .shx and without index), every truncation length of the .shx, every operation index k over the reads and seeks of a full traversal (open, iterate, read_nth_shape(i) and seek(i) for all i) x {one-shot, persistent} on each source, uniform short reads c in {1,2,3,4,5,7,8,9,15,16,17} and, for every read call j, 'call j returns 1 byte' / 'len-1 bytes'; files = types x 3 sequences (1-3 records of different sizes) x {library writer, RefCodec}, plus RefCodec files with fillers in front of every record (read through the index), plus, for the library-written files of 1 and 2 records: every pair of operations of the .shp failing once each, with and without index, the iteration going on after an error (every call during which an operation failed returns an error, nothing invented), and one failing operation around seek(i) / read_nth_shape(i) called after 0..n items of an iteration that then goes on (a failing seek leaving the source where it was, at its target, or at offset 0: the failing call reports the error, the items that follow are records of the file in file order, nothing is decoded out of place), and the two files on disk with every truncation of the .shx and of the .shp opened by ShapeReader::from_path (same answers as with_shx over the same bytes in memory); plus files whose index lists the records in another order than the file (3 records in order [2,0,1] at every truncation length; 40 records reversed, cut around every record end), the iteration going on after errors: every entry whose record is wholly retained comes back as that record, every other as an I/O error, by iteration and by random access; plus files whose second record has a part of 1500 / 70001 points (cuts: last 48 bytes, around every power of two and every MiB, every 4099th byte; short reads); every case is non-trivial",
             bounds: json!({"types": types.iter().map(|t| t.name()).collect::<Vec<_>>(), "files": units.len()}),
             exhaustive: true,
             assumptions: vec!["single faults, truncations and short reads: iteration is observed up to the first error; pairs of faults: the iteration goes on after an error, and only 'reported by the call in progress', 'nothing invented' and 'random access returns the record asked for' are judged".into()],
